@@ -175,6 +175,42 @@ async fn one_run(base: std::path::PathBuf, n: usize, p: usize) -> Option<String>
     None
 }
 
+/// several compactions on one data directory (the catalogue keeps the last two snapshots), then a restart: the node must come back from
+/// the LATEST snapshot plus the entries behind it
+async fn many_compactions_run(base: std::path::PathBuf, compact_after: &[usize]) -> Option<String> {
+    let tag = format!("c{}", compact_after.iter().map(|x| x.to_string()).collect::<Vec<_>>().join("-"));
+    let dir1 = base.join(&tag);
+    let dir2 = base.join(format!("{}-restart", tag));
+    std::fs::create_dir_all(&dir1).unwrap();
+    std::fs::create_dir_all(&dir2).unwrap();
+    let node = start_node(Arc::new(dir1.to_string_lossy().into_owned()));
+    let mut addrs = std::collections::HashMap::new();
+    addrs.insert(1u64, Arc::new("127.0.0.1:9848".to_owned()));
+    node.index_manager.send(RaftIndexRequest::SaveMember { member: vec![1], member_after_consensus: None, node_addr: Some(addrs) }).await.unwrap().unwrap();
+    for i in 0..HISTORY_LEN {
+        commit(&node, i as u64 + 1, history(i)).await;
+        if compact_after.contains(&(i + 1)) {
+            if let Err(e) = StateApplyManager::do_build_snapshot(node.log_manager.clone(), node.index_manager.clone(), node.snapshot_manager.clone(), node.data_wrap.clone(), i as u64 + 1).await {
+                return Some(format!("VX-BOUNDED-FAIL STARTUP-MANY {}: compaction after {} failed: {}", tag, i + 1, e));
+            }
+            tokio::time::sleep(Duration::from_millis(150)).await;
+        }
+    }
+    let before = observe(&node).await;
+    tokio::time::sleep(Duration::from_millis(1500)).await;
+    for _ in 0..100 { if header_is(&dir1, HISTORY_LEN as u64) { break; } tokio::time::sleep(Duration::from_millis(100)).await; }
+    copy_data_dir(&dir1, &dir2);
+    let node2 = restart_from(&dir2).await;
+    let after = observe(&node2).await;
+    let last = match node2.snapshot_manager.send(RaftSnapshotRequest::GetLastSnapshot).await {
+        Ok(Ok(RaftSnapshotResponse::LastSnapshot(path, header))) => format!("{:?} last_index {:?} exists {}", path, header.as_ref().map(|h| h.last_index), path.as_ref().map(|p| std::path::Path::new(p).exists()).unwrap_or(false)), _ => "?".to_owned() };
+    let want = *compact_after.last().unwrap() as u64;
+    if before != after || !last.contains(&format!("last_index Some({})", want)) || !last.contains("exists true") {
+        return Some(format!("VX-BOUNDED-FAIL STARTUP-MANY {}: compactions after {:?} of {} entries; served before the stop: {} | after the restart: {} | last snapshot after the restart: {}", tag, compact_after, HISTORY_LEN, before, after, last));
+    }
+    None
+}
+
 #[test]
 fn vx_bounded_c01_startup() {
     let base = std::env::temp_dir().join(format!("vx_c01s_{}", std::process::id()));
@@ -184,9 +220,11 @@ fn vx_bounded_c01_startup() {
     let (failures, runs) = sys.block_on(async {
         let mut futs = vec![];
         for n in 1..=HISTORY_LEN { for p in 0..=n { futs.push(one_run(base.clone(), n, p)); } }
-        let runs = futs.len();
+        let runs = futs.len() + 3;
         let res = futures_util::future::join_all(futs).await;
-        (res.into_iter().flatten().collect::<Vec<String>>(), runs)
+        let mut all = res.into_iter().flatten().collect::<Vec<String>>();
+        for cs in [vec![2usize, 4], vec![1, 3, 5], vec![2, 3, 5, 6]] { if let Some(f) = many_compactions_run(base.clone(), &cs).await { all.push(f); } }
+        (all, runs)
     });
     let _ = std::fs::remove_dir_all(&base);
     println!("vx_bounded_c01_startup: {} (history, compaction point) runs through the real start-up sequence", runs);
